@@ -49,10 +49,17 @@ func (f *fileEvent) OnEvent(progress *PackageProgress) {
 		}, "\n")
 	case ProgressStageStreamData:
 		curPack := extension.CurrentPackage
+		if curPack == nil {
+			break
+		}
 		str += fmt.Sprintf(" 文件传输中[%s] 进度[%d/%d] 偏移[%d]", curPack.FileName,
 			curPack.CurrentSize, curPack.FileSize, curPack.Offset)
 	case ProgressStageSupplementary:
 		curPack := extension.CurrentPackage
+		if curPack == nil {
+			// 还没有收到任何文件数据就收到了0x1212 此时没有当前文件
+			break
+		}
 		str += fmt.Sprintf(" 文件补传传输中[%s] 进度[%d/%d] 偏移[%d]", curPack.FileName,
 			curPack.CurrentSize, curPack.FileSize, curPack.Offset)
 	case ProgressStageStreamDataComplete:
